@@ -26,12 +26,11 @@ type grammarResult struct {
 	Violations []string
 }
 
-func checkGrammarLemma(repo string) grammarResult {
-	var res grammarResult
+// parseGrammar splits Cypher.g4 into rules "name : body ;".
+func parseGrammar(repo string) (map[string]string, error) {
 	data, err := os.ReadFile(filepath.Join(repo, "cypher", "grammar", "Cypher.g4"))
 	if err != nil {
-		res.Violations = append(res.Violations, "cannot read grammar: "+err.Error())
-		return res
+		return nil, err
 	}
 	text := string(data)
 	// split into rules "name : body ;" (string literals may contain ';' only as ';' token: handled by quote scan)
@@ -90,15 +89,28 @@ func checkGrammarLemma(repo string) grammarResult {
 			body.WriteByte(' ')
 		}
 	}
-	res.Rules = len(rules)
-	stripLits := func(s string) string { return regexp.MustCompile(`'(\\.|[^'])*'`).ReplaceAllString(s, " ") }
-	refs := func(b string) []string {
-		var out []string
-		for _, id := range identRe.FindAllString(stripLits(b), -1) {
-			out = append(out, id)
-		}
-		return out
+	return rules, nil
+}
+
+func stripLits(s string) string { return regexp.MustCompile(`'(\\.|[^'])*'`).ReplaceAllString(s, " ") }
+
+func grammarRefs(b string) []string {
+	var out []string
+	for _, id := range identRe.FindAllString(stripLits(b), -1) {
+		out = append(out, id)
 	}
+	return out
+}
+
+func checkGrammarLemma(repo string) grammarResult {
+	var res grammarResult
+	rules, err := parseGrammar(repo)
+	if err != nil {
+		res.Violations = append(res.Violations, "cannot read grammar: "+err.Error())
+		return res
+	}
+	res.Rules = len(rules)
+	refs := grammarRefs
 	guards := map[string]bool{"oC_UpdatingClause": true, "oC_Command": true, "oC_BulkImportQuery": true}
 	modifying := map[string]bool{"CREATE": true, "MERGE": true, "SET": true, "DELETE": true, "DETACH": true, "REMOVE": true, "DROP": true, "FOREACH": true}
 	if _, ok := rules["oC_Cypher"]; !ok {
